@@ -84,6 +84,7 @@ type rig struct {
 	quiescent func() bool
 	paused    func() bool
 	state     func() any
+	ideal     *idealmemcontroller.Comp
 	mkData    func(op opIn, meta messaging.MsgMeta) messaging.Msg
 }
 
@@ -143,7 +144,7 @@ func buildRig(sim *memdrv.Sim, agent string, cfg map[string]int, buf int) (*rig,
 		c := idealmemcontroller.MakeBuilder().WithRegistrar(reg).
 			WithResources(idealmemcontroller.Resources{Storage: mem.NewStorage(1 * mem.MB)}).WithSpec(spec).Build("AUT")
 		sim.AddPorts(c, buf, "Top", "Control")
-		return &rig{comp: c, reqPorts: []string{"Top"}, mkData: memData,
+		return &rig{comp: c, ideal: c, reqPorts: []string{"Top"}, mkData: memData,
 			quiescent: func() bool { return len(c.State.InflightTransactions) == 0 },
 			paused:    ctrlPaused(&c.State.ControlState)}, nil
 	case "dram":
